@@ -113,7 +113,15 @@ fn expected(threads: &[Vec<Op>]) -> BTreeSet<String> {
 
 fn bodies() -> Vec<(BodyInfo, Vec<Vec<Op>>)> {
     use Op::*;
-    let b = |name: &'static str, t: Vec<Vec<Op>>| (BodyInfo { name, threads: t.len(), ops: format!("{t:?}") }, t);
+    let b = |name: &'static str, t: Vec<Vec<Op>>| {
+        let mut kinds = Vec::new();
+        for (k, pat) in [("validate_sequence", "V("), ("batch_update", "B("), ("get_peer_counter", "R(")] {
+            if format!("{t:?}").contains(pat) {
+                kinds.push(k);
+            }
+        }
+        (BodyInfo { name, threads: t.len(), ops: format!("{t:?}"), kinds: kinds.join("+") }, t)
+    };
     vec![
         b("same_2", vec![vec![V(1, 1, 1)], vec![V(1, 1, 1)]]),
         b("same_3", vec![vec![V(1, 1, 1)], vec![V(1, 1, 1)], vec![V(1, 1, 1)]]),
@@ -156,7 +164,7 @@ fn run_op(sys: &MonotonicCounterSystem, op: &Op) -> String {
 fn main() {
     let all = bodies();
     match parse_args() {
-        Cmd::List => print_list(&all.iter().map(|(i, _)| BodyInfo { name: i.name, threads: i.threads, ops: i.ops.clone() }).collect::<Vec<_>>()),
+        Cmd::List => print_list(&all.iter().map(|(i, _)| BodyInfo { name: i.name, threads: i.threads, ops: i.ops.clone(), kinds: i.kinds.clone() }).collect::<Vec<_>>()),
         Cmd::Run { body, opts } => {
             let Some((info, threads)) = all.into_iter().find(|(i, _)| i.name == body) else {
                 eprintln!("unknown body {body}");
